@@ -22,20 +22,20 @@ Section Refines.
 
   (* the opcode at PC is one of the 245 + 256 defined ones *)
   Definition defined_at (s : cpu) (b : B) : Prop :=
-    snd (brd b (pc s)) = 203 \/ defined (snd (brd b (pc s))) = true.
+    snd (brd (commit B bset_ime s b) (pc s)) = 203 \/ defined (snd (brd (commit B bset_ime s b) (pc s))) = true.
 
   Theorem instr_refines : forall s b,
     starts gen_tables B bime bpending s b -> wf s -> byte_bus B brd -> defined_at s b ->
     agrees B (run_instr gen_tables B brd bwr btrig bcorrupt bime bset_ime bpending back s b)
-             (spec_instr B brd bwr bset_ime bime bpending (arch_of s) b).
+             (spec_instr B brd bwr bset_ime bime bpending (arch_of (set_eip false s)) (commit B bset_ime s b)).
   Proof.
     rewrite gen_tables_ok.
     intros s b Hst Hwf Hbb Hdef.
-    destruct (N.eq_dec (snd (brd b (pc s))) 203) as [Hcb|Hn].
+    destruct (N.eq_dec (snd (brd (commit B bset_ime s b) (pc s))) 203) as [Hcb|Hn].
     - apply (all_cbs B brd bwr btrig bcorrupt bime bset_ime bpending back Htrig Hcor
-               (snd (brd (fst (brd b (pc s))) (add16 (pc s) 1)))); auto.
+               (snd (brd (fst (brd (commit B bset_ime s b) (pc s))) (add16 (pc s) 1)))); auto.
     - destruct Hdef as [Hd|Hd]; [contradiction|].
-      apply (all_ops B brd bwr btrig bcorrupt bime bset_ime bpending back Htrig Hcor (snd (brd b (pc s)))); auto.
+      apply (all_ops B brd bwr btrig bcorrupt bime bset_ime bpending back Htrig Hcor (snd (brd (commit B bset_ime s b) (pc s)))); auto.
   Qed.
 End Refines.
 
@@ -226,11 +226,11 @@ Section WfInstr.
 
   (* well-formedness (bytes are bytes, the low nibble of F is zero) is preserved by every instruction of the model *)
   Theorem run_instr_wf s b :
-    starts gen_tables B bime bpending s b -> wf s -> defined_at B brd s b ->
+    starts gen_tables B bime bpending s b -> wf s -> defined_at B brd bset_ime s b ->
     wf (fst (fst (run_instr gen_tables B brd bwr btrig bcorrupt bime bset_ime bpending back s b))).
   Proof.
     intros Hst Hwf Hd.
     pose proof (instr_refines B brd bwr btrig bcorrupt bime bset_ime bpending back Htrig Hcor s b Hst Hwf Hbb Hd) as (Ha & _).
-    apply wf_arch_of. rewrite Ha. apply spec_instr_wf. apply wf_arch_of. exact Hwf.
+    apply wf_arch_of. rewrite Ha. apply spec_instr_wf. apply wf_arch_of. destruct s; exact Hwf.
   Qed.
 End WfInstr.
